@@ -1,3 +1,4 @@
+import Grexv.Lemmas.EndToEndRV
 import Grexv.Props.C09
 import Grexv.Props.C10
 
@@ -316,6 +317,37 @@ theorem repetitions_sound (cfg : Config) (hp : RepPrintNA cfg) (hci : cfg.ci = f
     fun u => List.map_congr_left (fun c _ => Props.C03.convAtom_documented cfg c)
   rw [this]
   exact Props.C03.generalises_self cfg t
+
+/-- **C01 with repetition conversion in verbose mode, all inputs** (`-r -x`; every subset of the class options, capturing groups, `-e`,
+any anchors; case-sensitive): whenever `RegExp::from` returns, the verbose text — flag line, one lexeme group per line, indentation,
+counted groups written `(?:` / unit / `){n}` on lines of their own — is accepted by the model of `Regex::new` with the `x` flag set, and
+the compiled pattern matches every non-empty test case in full.  Chain: the print → parse theorems for counted graphemes once more for
+the verbose character escapes (`Lemmas/*V.lean`, generated from the originals by `tools/vify.py`), counted repetition under the `x` flag
+(`parseCounted_exact_x`, the constructor `XL.cnt`), the verbose layout of a counted grapheme is its plain layout plus line feeds between
+lexemes (`relG`), `parse_verboseR`. -/
+theorem repetitions_sound_verbose (cfg : Config) (hp : RepVerbose cfg) (hci : cfg.ci = false) (env : Env) (ws : List Str) (st : Stages)
+    (h : regExpFrom cfg env ws = .ok st) (hseg : ∀ w ∈ ws, Grexv.SegOK env w)
+    (hlen : ∀ w ∈ ws, (clusterOfPieces (env.segOf w)).length ≤ 1000)
+    (t : Str) (ht : t ∈ ws) (hne : t ≠ []) :
+    ∃ P, Spec.parse (fmtRegExp cfg st.finalAst) = some (⟨false, true⟩, P) ∧ Spec.fullMatch false P t = true := by
+  have hlen : ∀ w ∈ ws, (subPieces (env.segOf w)).length ≤ 1000 := fun w hw => by
+    have := hlen w hw; rwa [clusterOfPieces_eq, List.length_map] at this
+  have hsc : ∀ c ∈ t, Scalar c := by
+    obtain ⟨h1, h2⟩ := hseg t ht
+    intro c hc
+    rw [← h2] at hc
+    obtain ⟨p, hp, hcp⟩ := List.mem_flatten.mp hc
+    exact (h1 p hp).2 c hcp
+  have hst : storedCases cfg env ws = ws := by simp [storedCases, hci]
+  have := rep_end_to_end_verbose cfg hp env ws st h (by rw [hst]; exact hseg) (by rw [hst]; exact hlen) t (by rw [hst]; exact ht) hne t hsc
+  rw [hci] at this
+  apply this
+  have : ∀ u : Str, u.map (convAtom cfg) = u.map (Props.C03.docAtom cfg) :=
+    fun u => List.map_congr_left (fun c _ => Props.C03.convAtom_documented cfg c)
+  rw [this]
+  exact Props.C03.generalises_self cfg t
+
+example : RepVerbose { rep := true, verb := true, word := true, noStart := true } := ⟨rfl, by decide, rfl, rfl, rfl⟩
 
 /-- the bound on the length is on what S4 receives: a test case of at most 1000 code points qualifies, whatever the segmentation -/
 theorem cluster_length_le (pieces : List Str) (hne : ∀ p ∈ pieces, p ≠ []) :
